@@ -1,5 +1,7 @@
 """C01 - returned upper bound is backed by a complete, checkable dual certificate."""
-from pv import oracles
+import os
+
+from pv import oracles, driver
 from pv.checks import _solvebase as sb
 
 LEVEL = "exploration"
@@ -13,8 +15,21 @@ DECIDING_COUNTER = "decided"
 MIN_DECIDED = {"quick": 60, "thorough": 1000}
 
 
+STANDINS = os.path.join(os.path.dirname(os.path.dirname(os.path.abspath(__file__))), "standins")
+
+
 def plan(tier, seed):
-    return sb.plan(tier, seed, per_shard_quick=12, per_shard_thorough=400)
+    return sb.plan(tier, seed, per_shard_quick=12, per_shard_thorough=400, extra={"extra_path": [STANDINS]})
+
+
+def config_fn(rng):
+    cfg = driver.random_config(rng)
+    if rng.random() < 0.2:
+        cfg["wrapper"] = "mosek"       # the MOSEK back-end through the stand-in (DESIGN 2.6)
+        cfg["solver"] = "CLARABEL"
+    if rng.random() < 0.08:
+        cfg["verbose"] = 2
+    return cfg
 
 
 def judge(acc, case, prog, cfg, rng):
@@ -38,4 +53,4 @@ def judge(acc, case, prog, cfg, rng):
 
 
 def run_shard(spec):
-    return sb.run_generic(spec, judge)
+    return sb.run_generic(spec, judge, config_fn=config_fn)
